@@ -366,6 +366,7 @@ func (p *Parser) parseAmount() *ast.Amount {
 		if signBeforeCommodity && (sign == "-" || sign == "+") {
 			amount.SignBeforeCommodity = true
 		}
+		p.checkQuoteClosed(p.current)
 		p.advance()
 	}
 
@@ -432,6 +433,7 @@ func (p *Parser) parseAmount() *ast.Amount {
 					End:   symbolEnd(p.current),
 				},
 			}
+			p.checkQuoteClosed(p.current)
 			p.advance()
 			amount.Range.End = amount.Commodity.Range.End
 			return amount
@@ -919,6 +921,15 @@ func textRange(tok Token) ast.Range {
 			Column: tok.Pos.Column + utf16Len(text),
 			Offset: tok.Pos.Offset + len(text),
 		},
+	}
+}
+
+// checkQuoteClosed reports a quoted commodity that lacks its closing quote. The symbol
+// is taken as written up to the line end; the error marks the line as one the syntax
+// tree does not fully account for.
+func (p *Parser) checkQuoteClosed(tok Token) {
+	if tok.Type == TokenCommodity && tok.End.Offset-tok.Pos.Offset == len(tok.Value)+1 {
+		p.errorAt(tok.Pos, "unterminated quoted commodity")
 	}
 }
 
